@@ -108,6 +108,14 @@ func xmlUnmarshalElement(el *etree.Element, obj interface{}) error {
 }
 
 func (sp *SAMLServiceProvider) getDecryptCert() (*tls.Certificate, error) {
+	if ks := sp.spKeyStoreOverride; ks != nil {
+		// The key set via SetSPKeyStore takes precedence over the deprecated field.
+		return sp.validateDecryptCert(&tls.Certificate{
+			Certificate: [][]byte{ks.Cert},
+			PrivateKey:  ks.Signer,
+		})
+	}
+
 	if sp.SPKeyStore == nil {
 		return nil, fmt.Errorf("no decryption certs available")
 	}
@@ -134,6 +142,10 @@ func (sp *SAMLServiceProvider) getDecryptCert() (*tls.Certificate, error) {
 		}
 	}
 
+	return sp.validateDecryptCert(&decryptCert)
+}
+
+func (sp *SAMLServiceProvider) validateDecryptCert(decryptCert *tls.Certificate) (*tls.Certificate, error) {
 	if sp.ValidateEncryptionCert {
 		// Check Validity period of certificate
 		if len(decryptCert.Certificate) < 1 || len(decryptCert.Certificate[0]) < 1 {
@@ -148,7 +160,7 @@ func (sp *SAMLServiceProvider) getDecryptCert() (*tls.Certificate, error) {
 		}
 	}
 
-	return &decryptCert, nil
+	return decryptCert, nil
 }
 
 func (sp *SAMLServiceProvider) decryptAssertions(el *etree.Element) error {
